@@ -106,7 +106,12 @@ def generate(ctx, thorough):
     conn = [m for m in abc if m["k"] == "conn"]
     prev = [m for m in abc if m.get("sec") == "prev"]
     if conn and prev:
-        fams["reconn"] = [[abc[i - 1] for i in h] + [conn[0], prev[0]] for h in seqs if len(h) <= 2]
+        getme = [m for m in abc if m["k"] == "get" and m["t"] == "me" and m["o"] == "none"]
+        short = [[abc[i - 1] for i in h] for h in seqs if len(h) <= 2]
+        fams["reconn"] = [p + [conn[0], prev[0]] for p in short]
+        # chains of re-issue: the token from the reply is presented again and again, on the same and on a new connection, with a
+        # privileged request after each (e.g. hi, login nologin, prev, get me, conn, prev, get me; hi, login needscred, prev, prev)
+        fams["chain"] = [p + [prev[0], prev[0]] for p in short] + [p + [prev[0]] + getme[:1] + [conn[0], prev[0]] + getme[:1] for p in short]
     # F3 (thorough): random walks of 8 messages over the thorough alphabet
     r3 = None
     if thorough:
